@@ -60,7 +60,7 @@ type Plan struct {
 }
 
 var kinds = []string{"mkdir", "cp", "mv", "rm", "cd", "cdback", "env", "envexpand", "exists", "notexists", "execfg", "execenv", "execpwd", "execbg", "execbgshort", "wait",
-	"toolguard", "notoolguard", "stop", "skip", "fail", "negfail", "probe", "probe", "defer", "defer", "writecanary"}
+	"toolguard", "notoolguard", "stop", "skip", "fail", "negfail", "probe", "probe", "defer", "defer", "writecanary", "deferfail", "execbgsave"}
 
 func genPlan(t *rapid.T, tier string) any {
 	p := &Plan{SetupFail: -1}
@@ -95,7 +95,7 @@ func genPlan(t *rapid.T, tier string) any {
 	p.HostRace = rapid.Bool().Draw(t, "hostrace")
 	p.Verbose = rapid.IntRange(0, 5).Draw(t, "verbose") == 0
 	if rapid.IntRange(0, 3).Draw(t, "limited") == 0 {
-		p.Parallel = rapid.IntRange(1, 2).Draw(t, "parallel")
+		p.Parallel = rapid.SampledFrom([]int{1, 2, -1}).Draw(t, "parallel") // -1: a T whose Run is synchronous and Parallel a no-op
 	}
 	p.Sched = gen.Sched(t, 600)
 	return p
@@ -140,6 +140,12 @@ func scriptText(i int, s Script, tool string) string {
 		case "execbg":
 			fmt.Fprintf(&b, "exec stub bg=true run=forever int=%dus quit=%dus touch=bgmade.txt &\n", (3+l.Arg)*1000+us, (3+l.Arg)*1000+us)
 			foreverBg = true
+		case "execbgsave":
+			// a background server that saves state under $WORK when it is told to stop
+			fmt.Fprintf(&b, "exec stub bg=true run=forever int=%dus quit=%dus onsig=state%d.txt &\n", (2+l.Arg)*1000+us, (2+l.Arg)*1000+us, l.Arg)
+			foreverBg = true
+		case "deferfail":
+			fmt.Fprintf(&b, "deferfail %d\n", l.Arg)
 		case "execbgshort":
 			fmt.Fprintf(&b, "exec stub bg=true run=%dus out=bg%d &\n", (5+l.Arg*10)*1000+us, i)
 		case "wait":
@@ -262,6 +268,7 @@ func execute(t *testing.T, p *Plan, dir, tag string, idx []int, tool string, kee
 		simexec.Reset(epoch)
 		root := tskit.NewRoot(s, epoch, p.Verbose)
 		root.Limit = p.Parallel
+		root.Sequential = p.Parallel < 0
 		deferSeq := map[string][]string{}
 		params := testscript.Params{
 			Files:              files,
@@ -278,6 +285,7 @@ func execute(t *testing.T, p *Plan, dir, tag string, idx []int, tool string, kee
 				}
 				name := fmt.Sprintf("s%d", sidx)
 				env.Setenv("SIDX", name)
+				env.Values["T"] = env.T()
 				vars := append([]string(nil), env.Vars[:len(env.Vars)-1]...)
 				for k, v := range vars {
 					if strings.HasPrefix(v, "WORK=") || strings.HasPrefix(v, "TMPDIR=") {
@@ -305,6 +313,19 @@ func execute(t *testing.T, p *Plan, dir, tag string, idx []int, tool string, kee
 					cwd, _ := filepath.Rel(work, ts.MkAbs("."))
 					add(record{ts.Getenv("SIDX"), "probe", strings.Join(args, " "),
 						fmt.Sprintf("cwd=%s VAR=%q SEEN=%q CANARY=%q\n%s", cwd, ts.Getenv("VAR"), ts.Getenv("SEEN"), ts.Getenv(canary), listing(work))})
+				},
+				"deferfail": func(ts *testscript.TestScript, neg bool, args []string) {
+					// a cleanup that finds something wrong and fails the test from inside the deferred call
+					name := ts.Getenv("SIDX")
+					label := fmt.Sprintf("%s#%d", args[0], len(deferSeq[name]))
+					deferSeq[name] = append(deferSeq[name], label)
+					tt, _ := ts.Value("T").(testscript.T)
+					ts.Defer(func() {
+						add(record{name, "defer", label, ""})
+						if tt != nil {
+							tt.FailNow()
+						}
+					})
 				},
 				"defer": func(ts *testscript.TestScript, neg bool, args []string) {
 					name := ts.Getenv("SIDX")
